@@ -1,4 +1,6 @@
 import IodineModel.Props.C10Session
+import IodineModel.Props.C10Session2
+import IodineModel.Lemmas.OptTop
 import IodineModel.Props.C18
 import IodineModel.Props.C19Main
 /-
@@ -110,5 +112,118 @@ example : ((serverMain C19.exEnv [ascii "iodined", ascii "-Px", ascii "60", asci
     ((serverMain C19.exEnv [ascii "iodined", ascii "-Px", ascii "-m", ascii "2147483647", ascii "10.0.0.1", ascii "t.co"]).final.map (·.mtu))
       = some 2147483647 := by
   decide +kernel
+
+/-! ### From `main()` to the session machine (phase 2): no configuration hypothesis left -/
+
+open Iodine.Server Iodine.Wire Iodine.Wire.Strict
+
+/-- **server_main_starts_session_machine.**  The state in which `tunnel()` is entered — the globals `main()` has set (`check_ip`,
+the 32 password bytes, `my_ip`, `netmask`, `topdomain`, `my_mtu`, `ns_ip`, `bind_port` if forwarding is on, `created_users`), `users[]`
+as `init_users` leaves the `calloc`ed array, the forward ring after `fw_query_init()`, `td1 = td2 = 0` — is EXACTLY `bstart cfg rnd`
+(and `Server.start cfg rnd`) for `cfg = f.cfg dest4 dest6`.
+* `rnd`: `main()` calls `srand(time(NULL))` and draws nothing; `rnd` is the stream libc's `rand()` will deliver for that seed.  The
+  theorems hold for every stream.
+* `dest4/dest6`: the local address `recvmsg` reports for a datagram; the session model keeps it in the configuration.
+* the clock: `start` stores 1000 in `now`; `start_clock_irrelevant` shows that the value stored at start-up is never looked at.
+Tied to the code: the `main` op of h_srv prints every slot of `users[]` (all fields, inactive slots included) and a probe of the
+forward ring after the real `main()`; the driver prints `Final.users` / `Final.fw` with the digest function of the session driver. -/
+theorem server_main_starts_session_machine (env : Env) (argv : List (List Nat)) (f : Final) (h : Top.Starts env argv f)
+    (rnd : List Nat) (dest4 dest6 : Nat) :
+    Top.bentry f rnd dest4 dest6 = bstart (f.cfg dest4 dest6) rnd ∧ Top.entry f rnd dest4 dest6 = Server.start (f.cfg dest4 dest6) rnd :=
+  ⟨OptL.bentry_eq_bstart h rnd dest4 dest6, OptL.entry_eq_start h rnd dest4 dest6⟩
+
+/-- **start_clock_irrelevant.**  Whatever time the process is started at: its first iteration (and hence every later one) is that of
+`Server.start`. -/
+theorem start_clock_irrelevant (cfg : Config) (rnd : List Nat) (t : Nat) (inp : Input) (now' : Nat) :
+    iteration { Server.start cfg rnd with now := t } inp now' = iteration (Server.start cfg rnd) inp now' :=
+  OptL.start_clock_irrelevant cfg rnd t inp now'
+
+/-- **configOk_from_main.**  `ConfigOk` for the configuration of the running process, whatever the local addresses are. -/
+theorem configOk_from_main {env : Env} {argv : List (List Nat)} {f : Final} (h : Top.Starts env argv f) (d4 d6 : Nat) :
+    ConfigOk (f.cfg d4 d6) := server_main_establishes_ConfigOk env argv f h
+
+/-- **session_datagrams_wellformed_from_main.**  For every command line and environment with which iodined reaches `tunnel()`; every
+state `b` the process then reaches through ARBITRARY inputs made of octets whose question labels contain no '.' or NUL (`PlainReachable`,
+from `bentry = bstart`), every further such input and every datagram `tx dst bytes` it sends through `write_dns`: a well-formed RFC 1035
+response carrying the id, question name and type of an `ans` event of this iteration.  The `ConfigOk` hypothesis of
+`session_datagrams_wellformed_plain` is gone. -/
+theorem session_datagrams_wellformed_from_main (env : Env) (argv : List (List Nat)) (f : Final) (h : Top.Starts env argv f)
+    (d4 d6 : Nat) (b : BSrv) (hr : PlainReachable (f.cfg d4 d6) b)
+    (inp : BInput) (now' : Nat) (hb : ByteDgram inp) (hp : PlainDgram inp) (dst : Addr) (bytes : List Nat)
+    (htx : BEvent.tx dst bytes ∈ (biteration b inp now').2.1) :
+    ∃ id ty dn name data tag,
+      Event.ans dst id ty dn name data tag ∈ out b.srv ⟨toInput b.srv inp, now'⟩ ∧
+      id < 65536 ∧ LegalName name ∧ ty ∈ TunnelTypes ∧ WellFormedAnswerTo id ty name bytes :=
+  session_datagrams_wellformed_plain _ (configOk_from_main h d4 d6) b hr inp now' hb hp dst bytes htx
+
+/-- the start of such runs: the state `main()` leaves -/
+theorem plainReachable_bentry {env : Env} {argv : List (List Nat)} {f : Final} (h : Top.Starts env argv f) (rnd : List Nat)
+    (d4 d6 : Nat) : PlainReachable (f.cfg d4 d6) (Top.bentry f rnd d4 d6) := by
+  rw [OptL.bentry_eq_bstart h]; exact .init rnd
+
+/-- **session_nsa_wellformed_from_main.**  Likewise for the NS and A responses. -/
+theorem session_nsa_wellformed_from_main (env : Env) (argv : List (List Nat)) (f : Final) (h : Top.Starts env argv f)
+    (d4 d6 : Nat) (b : BSrv) (hr : PlainReachable (f.cfg d4 d6) b)
+    (inp : BInput) (now' : Nat) (hb : ByteDgram inp) (hp : PlainDgram inp) (dst : Addr) (bytes : List Nat)
+    (hnsa : BEvent.nsa dst bytes ∈ (biteration b inp now').2.1) :
+    ∃ q, toInput b.srv inp = .q q ∧ Event.nsa dst ∈ out b.srv ⟨toInput b.srv inp, now'⟩ ∧
+      q.id < 65536 ∧ LegalName q.name ∧
+      (∀ src dg, inp = .dgram src dg → labels q.name = questionLabels dg) ∧
+      ∃ m, parseMsg bytes = some m ∧ m.id = q.id ∧ m.flags = 0x8400 ∧ m.qd = [(labels q.name, q.type, 1)] ∧
+        m.an.length = 1 ∧ (∀ r ∈ m.an, r.owner = labels q.name ∧ r.type = q.type ∧ r.cls = 1) ∧ m.ns = [] :=
+  session_nsa_wellformed_plain _ (configOk_from_main h d4 d6) b hr inp now' hb hp dst bytes hnsa
+
+/-- **session_answer_echoes_received_query_from_main.**  For every command line and environment with which iodined reaches
+`tunnel()`, every run `l` on ANY inputs and one more iteration: every `write_dns` goes to the sender of a query with exactly this id,
+name and type that `read_dns` decoded from a datagram of this run.  No hypothesis at all. -/
+theorem session_answer_echoes_received_query_from_main (env : Env) (argv : List (List Nat)) (f : Final) (h : Top.Starts env argv f)
+    (rnd : List Nat) (d4 d6 : Nat) (l : List (BInput × Nat)) (inp : BInput) (now' : Nat)
+    (dst : Addr) (id ty dn : Nat) (name data : List Nat) (tag : Tag)
+    (he : Event.ans dst id ty dn name data tag ∈
+      out (brun (Top.bentry f rnd d4 d6) l).srv ⟨toInput (brun (Top.bentry f rnd d4 d6) l).srv inp, now'⟩) :
+    ∃ (src : Addr) (bytes : List Nat) (n : Nat) (b' : BSrv) (q : Query),
+      (BInput.dgram src bytes, n) ∈ l ++ [(inp, now')] ∧ decodeInput b'.srv src bytes = .q q ∧
+      q.from_ = dst ∧ q.id = id ∧ q.name = name ∧ q.type = ty := by
+  rw [OptL.bentry_eq_bstart h] at he
+  exact session_answer_echoes_received_query _ rnd l inp now' dst id ty dn name data tag he
+
+/-- **session_fwd_wellformed_from_main.**  For every run `l` of the process `main()` started and one more byte-valued input with plain
+question labels: every datagram handed to the forward socket is a well-formed query carrying the id, type and label sequence of the
+query decoded from this iteration's datagram.  (`session_fwd_wellformed` holds in EVERY state; restated for the runs from `main()`.) -/
+theorem session_fwd_wellformed_from_main (env : Env) (argv : List (List Nat)) (f : Final) (_h : Top.Starts env argv f)
+    (rnd : List Nat) (d4 d6 : Nat) (l : List (BInput × Nat)) (inp : BInput) (now' : Nat) (hb : ByteDgram inp) (hp : PlainDgram inp)
+    (dst : Addr) (bytes : List Nat) (hf : BEvent.fwd dst bytes ∈ (biteration (brun (Top.bentry f rnd d4 d6) l) inp now').2.1) :
+    ∃ q src dg, inp = .dgram src dg ∧ toInput (brun (Top.bentry f rnd d4 d6) l).srv inp = .q q ∧ q.id < 65536 ∧ q.type < 65536 ∧
+      q.from_ = src ∧ labelSeq q.name ≠ [] ∧ labelSeq q.name <+: questionLabels dg ∧
+      WellFormedQueryOf q.id q.type (labelSeq q.name) bytes := by
+  obtain ⟨q, src, dg, h1, h2, _, h4, h5, h6, h7, h8, _, h10⟩ := session_fwd_wellformed _ inp now' hb hp dst bytes hf
+  exact ⟨q, src, dg, h1, h2, h4, h5, h6, h7, h8, h10⟩
+
+/-! ### Non-vacuity: from a command line to a datagram exchange -/
+
+/-- `iodined -f -P secret 10.0.0.1 t.co` -/
+def exArgvRun : List (List Nat) := [Getopt.ascii "iodined", Getopt.ascii "-f", Getopt.ascii "-P", Getopt.ascii "secret", Getopt.ascii "10.0.0.1", Getopt.ascii "t.co"]
+
+/-- the process started by that command line receives the version request `exDgramV` (id 0x1234, type NULL) from `exSrc` as its first
+datagram and the NS query `exDgramNs` as its second: one `tx` resp. one `nsa` to the sender with the query's id -/
+def exFromArgv : Option (Bool × Bool) :=
+  (serverMain C19.exEnv exArgvRun).final.map fun f =>
+    let b0 := Top.bentry f [] 0 0
+    let r1 := biteration b0 (.dgram exSrc exDgramV) 1000
+    let r2 := biteration r1.1 (.dgram exSrc exDgramNs) 1001
+    ((match r1.2.1 with
+      | [.tx dst bytes] => decide (dst = exSrc) && ((parseMsg bytes).map (·.id) == some 0x1234)
+      | _ => false),
+     (match r2.2.1 with
+      | [.nsa dst bytes] => decide (dst = exSrc) && ((parseMsg bytes).map (·.id) == some 7)
+      | _ => false))
+
+example : (serverMain C19.exEnv exArgvRun).outcome = .run 0 ∧ exFromArgv = some (true, true) := by decide +kernel
+
+/-- the theorems applied to it -/
+example (f : Final) (h : Top.Starts C19.exEnv exArgvRun f) (dst : Addr) (bytes : List Nat)
+    (htx : BEvent.tx dst bytes ∈ (biteration (Top.bentry f [] 0 0) (.dgram exSrc exDgramV) 1000).2.1) :=
+  session_datagrams_wellformed_from_main _ _ f h 0 0 _ (plainReachable_bentry h [] 0 0) (.dgram exSrc exDgramV) 1000
+    (by decide +kernel) (by decide +kernel) dst bytes htx
 
 end Iodine.C10
